@@ -71,8 +71,23 @@ func RunCLIArgs(w *simfs.World, flagArgs []string, stdin string) (CLIResult, err
 		}
 	}
 	args := append([]string{"sign"}, flagArgs...)
-	args = append(args, root)
+	dirArg, cwd := root, ""
+	switch w.DirForm {
+	case 1:
+		dirArg, cwd = "pki", dir
+	case 2:
+		dirArg, cwd = "./pki/", dir
+	case 3:
+		dirArg, cwd = ".", root
+	case 4:
+		if err := os.Symlink("pki", filepath.Join(dir, "link-to-pki")); err != nil {
+			return CLIResult{}, err
+		}
+		dirArg = filepath.Join(dir, "link-to-pki")
+	}
+	args = append(args, dirArg)
 	cmd := exec.Command(GopkiBin(), args...)
+	cmd.Dir = cwd
 	cmd.Stdin = bytes.NewBufferString(stdin)
 	var so, se bytes.Buffer
 	cmd.Stdout, cmd.Stderr = &so, &se
